@@ -351,6 +351,11 @@ def _add_foreign_sharded(exp_nodes, base_tree, app_path, requested, sharded_info
             raise Irregular(p)
         if isinstance(parent_base, list):
             raise Irregular(p)
+        if any(key == q for q in parent_base.keys()):
+            # the foreign path comes from a rank whose list indices are shifted and lands in a container that already
+            # has a Python-equal key (1 == True, 0 == False): no application state can hold both, the request is not
+            # a legal one
+            raise Irregular(p)
         parent_exp[key] = Leaf("sh", leafobj.id, "sharded", None, "float")
         added.append((parent_path, key, p))
     return added
@@ -663,7 +668,13 @@ def _materialise(tree, rank, W, restoring=False, layout_seed=0):
             g = _global_sharded(tree.id)
             if restoring:
                 # the restoring rank's own sharding: a different split of the rows
-                k = (layout_seed + tree.id + rank) % 3
+                k = (layout_seed + tree.id + rank) % 4
+                if k == 3 and os.environ.get('VERIF_C07_NODENSE'):
+                    k = 0
+                if k == 3:
+                    # the restoring rank asks for the saved sharded tensor as a plain dense tensor (C07/C08: a dense
+                    # destination is a legal request for a sharded entry)
+                    return torch.full_like(g, -1.0)
                 blocks = [[(0, 5)], [(3, 12)], [(0, 2), (7, 10)]][k]
                 return _mk_sharded(torch.full_like(g, -1.0), blocks)
             return _mk_sharded(g, [_holder_rows(tree.id, rank, W)])
@@ -828,11 +839,19 @@ def _take_restore_one(ctx: Ctx, case, suite="take_restore", report=True):
 
             def leaf_ok(e, v, path):
                 if e.kind == "sh":
-                    if not isinstance(v, ShardedTensor):
-                        return ("sharded-wrong-type", f"{path}: {type(v).__name__}")
                     g = torch.full_like(_global_sharded(e.id), -1.0)
                     for (a0, b0) in covered.get(e.id, []):
                         g[a0:b0] = _global_sharded(e.id)[a0:b0]
+                    if (case["seed"] + e.id + r) % 4 == 3 and not os.environ.get('VERIF_C07_NODENSE'):
+                        # dense destination: the whole saved tensor (rows nobody saved keep the target's -1)
+                        if isinstance(v, ShardedTensor) or not isinstance(v, torch.Tensor):
+                            return ("sharded-wrong-type", f"{path}: dense target came back as {type(v).__name__}")
+                        if not torch.equal(v, g):
+                            return ("sharded-dense-target-wrong-values", f"{path}: dense destination differs from the saved global tensor")
+                        ctx.count("take.sharded_into_dense")
+                        return None
+                    if not isinstance(v, ShardedTensor):
+                        return ("sharded-wrong-type", f"{path}: {type(v).__name__}")
                     for s in v.local_shards():
                         o, z = s.metadata.shard_offsets, s.metadata.shard_sizes
                         if not torch.equal(s.tensor, g[o[0]:o[0] + z[0]]):
